@@ -115,6 +115,8 @@ def install_signal_receivers(rec):
             if 'evolutions' in kw:
                 data['app'] = kw['task'].app_label
                 data['labels'] = [e.label for e in kw['evolutions']]
+                # the Evolution objects themselves: whose are they?
+                data['evo_apps'] = [getattr(e, 'app_label', None) for e in kw['evolutions']]
             if 'migration' in kw:
                 data['app'] = kw['migration'].app_label
                 data['name'] = kw['migration'].name
@@ -371,6 +373,24 @@ def main():
                     rec.emit('evolve_call')
                     evolver.evolve()
                     rec.emit('evolve_return')
+            elif action == 'evolve_api_seq':
+                # several databases evolved by THIS process, one Evolver after the other (the
+                # evolution modules and the mutation objects in them are shared between them)
+                from django_evolution.evolve import Evolver
+                result['seq'] = []
+                for dbname in req['databases']:
+                    entry = {'db': dbname}
+                    try:
+                        evolver = Evolver(database_name=dbname)
+                        evolver.queue_evolve_all_apps()
+                        entry['required'] = bool(evolver.get_evolution_required())
+                        if entry['required']:
+                            evolver.evolve()
+                        entry['outcome'] = 'ok'
+                    except Exception as e_:
+                        entry['outcome'] = 'error'
+                        entry['error'] = '%s: %s' % (type(e_).__name__, str(e_)[:300])
+                    result['seq'].append(entry)
             elif action == 'command':
                 from django.core.management import call_command
                 rec.in_evolve = req.get('fault_anywhere', True)
